@@ -175,6 +175,7 @@ def forms(name):
     for (hu, vu), he, ve in itertools.product(zip(H_UNITS, V_UNITS), ("left", "right"), ("top", "bottom")):
       f.append((f"{he} {hu} {ve} {vu}", (lambda r, hu=hu, vu=vu, he=he, ve=ve: ["P", ln(r, hu), ln(r, vu), he, ve])))
     f.append(("center", lambda r: ["P", ["L", 50, "%"], ["L", 50, "%"], "left", "top"]))
+    f.append(("ttml-default", lambda r: ["P", ["L", 0, "%"], ["L", 0, "%"], "left", "top"]))     # present with the default value is not the same as absent
     f.append(("mixed", lambda r: ["P", ln(r, r.choice(H_UNITS)), ln(r, r.choice(V_UNITS)), r.choice(["left", "right"]),
                                   r.choice(["top", "bottom"])]))
     return f
@@ -469,6 +470,11 @@ def make_initial_case(seed, idx, name, form_name, wm, cell, px):
   reg = roles["Region"]
   if reg is not None and idx % 3 == 1:
     add_style(reg, name, dict(forms(name))[form_name](r))        # the specified value must win over <initial>
+  if reg is not None and name == "Position" and idx % 3 != 1:
+    # an <initial tts:position> next to a SPECIFIED tts:origin (and an extent the position can be resolved against): the one case in
+    # which an initial value that equals the TTML default is not the same as no initial value
+    add_style(reg, "Origin", ["O", ["L", 10 + idx % 7, "%"], ["L", 20 + idx % 5, "%"]])
+    add_style(reg, "Extent", ["X", ["L", 40, "%"], ["L", 50, "%"]])
   info = {"prop": name, "form": form_name, "kind": "initial", "mode": "init", "wm": wm, "cell": list(cell), "px": list(px)}
   return desc, [Fraction(0)], info
 
@@ -637,6 +643,22 @@ def classify(doc, name, kind, src, obs, exp, root, region_sources, rid):
 def check_snapshot(rec, doc, t, desc, info, collect=None):
   """evaluate the contracts on ISD.from_model(doc, t); `collect` (list) receives (key, region id, element id, property,
   observed, required) of every failure"""
+  # premise of every other contract: the document under test is the one described -- every <initial> value given to
+  # put_initial_value is the document's initial value (the oracle reads the document, so a model that silently drops or alters a
+  # value would otherwise be judged against the altered document)
+  for name, v in desc.get("initials", []):
+    rec.evaluated("the document keeps the initial values it was given", (name, repr(v)))
+    want = to_model(v)
+    has = doc.has_initial_value(prop_class(name))
+    got = doc.get_initial_value(prop_class(name)) if has else None
+    if not has or got != want:
+      key = f"initial-value-not-kept:{name}"
+      msg = f"put_initial_value({name}, {want!r}) -- the document then has {'no initial value' if not has else repr(got)} for it"
+      if collect is not None:
+        collect.append((key, None, None, name, repr(got), repr(want)))
+      else:
+        rec.fail(key, "the document keeps the initial values it was given", msg, {"doc": desc, "t": str(t)}, repr(got), repr(want),
+                 replayer="replayers.c03:element_style", replay_args={"desc": desc, "t": str(t), "key": key})
   try:
     isd = ISD.from_model(doc, t)
   except Exception as e:  # pylint: disable=broad-except
@@ -793,8 +815,52 @@ def _minimize_job(job):
 # ---------------------------------------------------------------------------------------------------------------------
 
 
+_PINNED = False
+
+
+def pin_readings():
+  """Where the oracle accepts two readings of the specification, the implementation must still follow ONE of them for every
+  document.  `initial-position` (an <initial tts:position> together with a specified tts:origin): which reading the code follows is
+  observed once on a probe document whose initial position is NOT the TTML default, and only that reading is accepted afterwards --
+  so a change that treats some initial positions differently from others (e.g. the one that equals the default) is a violation."""
+  global _PINNED
+  if _PINNED:
+    return
+  _PINNED = True
+  import ttconv.model as m
+  import ttconv.style_properties as sp
+  from ttconv.isd import ISD
+  P_, L_, U_ = sp.StyleProperties, sp.LengthType, sp.LengthType.Units
+  doc = m.ContentDocument()
+  doc.put_initial_value(P_.Position, sp.PositionType(L_(30, U_.pct), L_(40, U_.pct), sp.PositionType.HEdge.left, sp.PositionType.VEdge.top))
+  reg = m.Region("r1", doc)
+  reg.set_style(P_.Origin, sp.CoordinateType(x=L_(10, U_.pct), y=L_(20, U_.pct)))
+  reg.set_style(P_.Extent, sp.ExtentType(height=L_(50, U_.pct), width=L_(50, U_.pct)))
+  doc.put_region(reg)
+  body = m.Body(doc)
+  body.set_region(reg)
+  doc.set_body(body)
+  div = m.Div(doc)
+  body.push_child(div)
+  p = m.P(doc)
+  div.push_child(p)
+  sp_ = m.Span(doc)
+  p.push_child(sp_)
+  sp_.push_child(m.Text(doc, "x"))
+  try:
+    o = ISD.from_model(doc, 0).get_region("r1").get_style(P_.Origin)
+    got = (round(float(o.x.value), 6), round(float(o.y.value), 6))
+  except Exception:  # pylint: disable=broad-except
+    return
+  if got == (10.0, 20.0):
+    S.READINGS["initial-position"] = ("origin",)
+  elif got == (15.0, 20.0):         # 30 % and 40 % of the room left by a 50 % x 50 % extent
+    S.READINGS["initial-position"] = ("position",)
+
+
 def run_chunk(chunk):
   logging.disable(logging.CRITICAL)
+  pin_readings()
   seed, cases = chunk
   rec = Recorder(PROP, "", {})
   for case in cases:
